@@ -229,15 +229,15 @@ def to_coq(case, obs):
     if is_dag(case):
         return dag_to_coq(case, obs)
     T = gtree(tuple_tree(case["tree"]))
-    chk = f"expr_eqb (build {T}) {gexpr(obs['e'])}"
+    chk = f"expr_seteqb (build {T}) {gexpr(obs['e'])}"
     if case["kind"] == "expr":
         return chk
     R = gtree(tuple_tree(case["rtree"]))
     rhs_model = f"(build {R})" if case["via"] == "ctor" else f"(add_expr zero (build {R}))"
     opmap = {">=": "GE", ">": "GT", "=": "EQ", "<=": "LE", "<": "LT", "==": "EQ2"}
     lhs_terms = glist([f"(mkT {gstr(x[1])} {gbool(x[2])} {gz(x[3])})" for x in obs["lhs"]["t"]])
-    return (f"{chk} && expr_eqb (build {R}) {gexpr(obs['r'])} && "
-            f"ineq_eqb (mk_ineq (build {T}) {rhs_model} {case['op']}) (mkI {lhs_terms} {gz(obs['rhs'])} {opmap[obs['op']]})"
+    return (f"{chk} && expr_seteqb (build {R}) {gexpr(obs['r'])} && "
+            f"ineq_seteqb (mk_ineq (build {T}) {rhs_model} {case['op']}) (mkI {lhs_terms} {gz(obs['rhs'])} {opmap[obs['op']]})"
             f" && Z.eqb {gz(obs['lhs']['c'])} 0")
 
 
